@@ -1,13 +1,14 @@
 SPECIFICATION Spec
 CONSTANTS
- AtomSel = {1, 2, 3, 5, 11}
+ AtomSel = {1, 2, 3, 6, 5, 11}
  ConfSel = {1, 2, 3, 4, 5}
  FmtSel = {1}
- MaxLen = 2
+ MaxLen = 4
 INVARIANT ScanEqualsSegments
 INVARIANT OtherBytesUntouched
 INVARIANT NoRescan
 INVARIANT MissingAreUndefinedNamesOfTheTemplate
+INVARIANT DeviationsOffIsRuleBook
 INVARIANT HeaderHasExactlyKeysSorted
 INVARIANT PinnedCasesHold
 CHECK_DEADLOCK FALSE
